@@ -387,7 +387,15 @@ pub fn check_file(ev: &Ev, shape: &node::Shape, bytes: &[u8], cx: &mut Cx, rende
         return cx.fail("file/not-utf8", format!("file content is not UTF-8: {}", brief(String::from_utf8_lossy(bytes))));
     };
     if text.is_empty() {
-        return cx.fail("file/event-missing", "nothing was written for the event");
+        // (what a writer that refuses the event instead of corrupting the line would produce)
+        let sig = if shape.json_bad_key {
+            "file/event-dropped/composite-map-key"
+        } else if shape.tagged_key {
+            "file/event-dropped/tagged-map-key"
+        } else {
+            "file/event-missing"
+        };
+        return cx.fail(sig, "nothing was written for the event");
     }
     vassert!(cx, text.ends_with('\n'), "file/missing-separator", "record does not end with a newline: {}", brief(text));
     let lines: Vec<&str> = text[..text.len() - 1].split('\n').collect();
@@ -396,7 +404,7 @@ pub fn check_file(ev: &Ev, shape: &node::Shape, bytes: &[u8], cx: &mut Cx, rende
     let jv = match jsonp::parse(line) {
         Ok(j) => j,
         Err(e) => {
-            let sig = if shape.composite_key {
+            let sig = if shape.json_bad_key {
                 SIG_FILE_COMPOSITE
             } else if shape.tagged_key {
                 SIG_FILE_TAGGED
